@@ -104,6 +104,8 @@ func (l *Link) emitEthernet(frame []byte) {
 		w.Tracef("emit link=%d frame=%d eth %s", l.Idx, f.ID, describe(f))
 	}
 	w.Probes["ethernet_frames_written"]++
+	w.c06(f)
+	w.relObserve(f.Proto, f.Data, l.Idx, true)
 	if w.OnEmit != nil {
 		w.OnEmit(f)
 	}
